@@ -73,6 +73,7 @@ type Unit struct {
 	catTerms   []Term
 	closedChans map[string]bool
 	tableCells  map[string]*Cell
+	chanCap     map[int]Term
 	// cell counter at the head of each loop currently being cut by invariant: a local channel with a smaller
 	// id was made before that loop and may still hold a value sent in an earlier iteration
 	loopMarks []int
